@@ -25,6 +25,36 @@ LIBBLOC_API extern void (*bloc_verif_point_cb)(int kind, const void * addr);
 
 #define BLOC_VERIF_POINT(k, a) \
   do { if (bloc_verif_point_cb) bloc_verif_point_cb((k), (const void*)(a)); } while (0)
+
+#ifdef __cplusplus
+#include <atomic>
+namespace bloc
+{
+/* an atomic counter whose every access (read, write, read-modify-write) is an
+ * instrumented point of its own: a scheduler sees an update written as a
+ * separate read and write as two steps */
+class verif_atomic_int
+{
+  std::atomic<int> _v;
+public:
+  verif_atomic_int(int i) : _v(i) { }
+  verif_atomic_int(const verif_atomic_int&) = delete;
+  verif_atomic_int& operator=(const verif_atomic_int&) = delete;
+  int load() const { BLOC_VERIF_POINT(BLOC_VP_REFCOUNT, this); return _v.load(); }
+  void store(int i) { BLOC_VERIF_POINT(BLOC_VP_REFCOUNT, this); _v.store(i); }
+  int fetch_add(int d) { BLOC_VERIF_POINT(BLOC_VP_REFCOUNT, this); return _v.fetch_add(d); }
+  int fetch_sub(int d) { BLOC_VERIF_POINT(BLOC_VP_REFCOUNT, this); return _v.fetch_sub(d); }
+  operator int() const { return load(); }
+  int operator=(int i) { store(i); return i; }
+  int operator+=(int d) { return fetch_add(d) + d; }
+  int operator-=(int d) { return fetch_sub(d) - d; }
+  int operator++() { return fetch_add(1) + 1; }
+  int operator--() { return fetch_sub(1) - 1; }
+  int operator++(int) { return fetch_add(1); }
+  int operator--(int) { return fetch_sub(1); }
+};
+}
+#endif
 #else
 #define BLOC_VERIF_POINT(k, a) ((void)0)
 #endif
